@@ -75,6 +75,7 @@ func TestCheck(t *testing.T) {
 	r.Assume("every arrival that reaches the window (also one that is itself dropped by the window) is a countable event, as in the design's log model")
 	r.Assume("an event exactly `interval` old may be inside or outside the window (either reading of 'within the interval'), but one reading must be used consistently")
 	r.Assume("queries of allow-listed clients, refused ANY queries and queries dropped while in back-off may or may not count towards the subnet's window (unspecified)")
+	r.Assume("a subnet can be in back-off only if `count` of its over-limit events (counting everything that may have been one) can lie within one window of max(period, duration)")
 	r.Assume("back-off is certain only while less than `duration` has passed since the first over-limit event and all `count` events fell within `period`; " +
 		"it is certainly over once `duration`+`period` have passed since the last over-limit event")
 	r.Assume("a response of wire length S counts floor(S/estimate)..ceil(S/estimate) extra events when S >= estimate and none when S < estimate")
@@ -89,6 +90,7 @@ func TestCheck(t *testing.T) {
 	layer2Window(r)
 	layer2Expiry(r)
 	layer2Backoff(r)
+	layer2SpreadHits(r)
 	layer2Concurrent(r)
 
 	layer3Profile(r)
@@ -112,6 +114,7 @@ func TestCheck(t *testing.T) {
 	r.Require("l2_backoff_certain_drop", 10)
 	r.Require("l2_backoff_ended_pass", 5)
 	r.Require("l2_below_count_pass", 5)
+	r.Require("l2_spread_hits_pass", 8)
 	r.Require("l3_profile_decided", 20)
 	r.Require("l3_stack_profile_instead_of_global", 5)
 	r.Require("l3_stack_dropped_silently", 20)
@@ -459,6 +462,10 @@ type keyModel struct {
 	events []mEvent
 	hits   []mEvent // over-limit events; opt = may or may not be one
 	first  *span    // first event that may have created the subnet's counter
+	// spreadOnly: at the last evaluation there were >= count recent over-limit
+	// events, but no `count` of them can lie within one window of length
+	// max(period, duration), so the subnet cannot be in back-off.
+	spreadOnly bool
 }
 
 type traceRec struct {
@@ -614,7 +621,22 @@ func (ks *keyModel) backoff(b, a int64, c bcfg) (certain, possible bool, recent 
 	if c.Count == noBackoff || recent == 0 {
 		return false, false, recent
 	}
-	possible = uint(recent) >= c.Count
+	ks.spreadOnly = false
+	if uint(recent) >= c.Count {
+		// Back-off needs `count` over-limit events within the back-off period.
+		// Counting generously (everything that may have been such an event, at
+		// the closest instants the recorded intervals allow): is there any run
+		// of `count` of them that fits into one window of max(period, duration)?
+		w := max(int64(c.Period), int64(c.Duration))
+		k := int(c.Count)
+		for i := 0; i+k-1 < recent; i++ {
+			if kept[i+k-1].B-kept[i].A <= w+eps {
+				possible = true
+				break
+			}
+		}
+		ks.spreadOnly = !possible
+	}
 	sure := uint(0)
 	for _, h := range kept {
 		if h.opt {
@@ -732,10 +754,17 @@ func (m *bmon) query(ip netip.Addr, qt uint16) (dropped bool) {
 		if !drop {
 			m.nPass++
 			m.r.Bucket("l2_decided_must_pass", 1)
+			if ks.spreadOnly {
+				m.r.Bucket("l2_spread_hits_pass", 1)
+			}
 			break
 		}
 		extra := map[string]any{"limit": n, "certainly_in_window": lo, "possibly_in_window": hi, "recent_over_limit_events": recent}
 		switch {
+		case ks.spreadOnly:
+			extra["window_max_period_duration"] = max(m.cfg.Period, m.cfg.Duration).String()
+			m.viol("backoff:backoff-from-hits-spread-over-several-periods",
+				"a subnet was dropped with a window that is not full although no `count` of its over-limit events can lie within one window of max(period, duration): over-limit events spread over several back-off periods were accumulated", extra)
 		case recent > 0:
 			m.viol("backoff:backoff-before-count-hits", "a subnet with fewer than `count` over-limit events (or whose back-off is over) and a window that is not full was dropped", extra)
 		case hi == n-1:
@@ -1264,6 +1293,57 @@ func backoffCase(r *vkit.Run, i int) {
 		m.query(a, dns.TypeA)
 		m.finish(fmt.Sprintf("L2backoff/%s/n%d/c%d/v6=%v", name, n, cnt, v6))
 	}
+}
+
+// ---- family: over-limit events spread over several back-off periods (timed)
+
+func layer2SpreadHits(r *vkit.Run) {
+	cases := r.N(24, 160)
+	parallel(cases, 24, func(i int) { guard(r, "backoff-spread-hits", i, func() { spreadHitsCase(r, i) }) })
+}
+
+func spreadHitsCase(r *vkit.Run, i int) {
+	g := r.Rand("l2spread", i)
+	n := uint(1 + g.IntN(2))
+	cnt := uint(3 + g.IntN(2))
+	ivl := 20 * time.Millisecond
+	w := []time.Duration{300, 400, 500}[g.IntN(3)] * time.Millisecond
+	c := bcfg{N4: n, N6: n, I4: ivl, I6: ivl, Period: w, Duration: w, K4: 24, K6: 48, Count: cnt, Est: 512}
+	switch i % 4 {
+	case 1:
+		c.Period = w * 8 / 10 // duration is the longer one
+	case 2:
+		c.Duration = w * 9 / 10 // period is the longer one
+	}
+	// any `cnt` consecutive over-limit events span at least 1.2 w, yet each gap
+	// is shorter than both period and duration
+	gap := w * 12 / 10 / time.Duration(cnt-1)
+	v6 := g.IntN(3) == 0
+	a := rand4(g)
+	if v6 {
+		a = rand6(g)
+	}
+	m := newMon(r, "spread-hits", i, c)
+	hits := int(cnt) + g.IntN(2)
+	for h := 0; h < hits; h++ {
+		// n queries fill the (empty) window, one more exceeds the limit
+		for j := 0; j < int(n)+1; j++ {
+			m.query(a, dns.TypeA)
+		}
+		if h < hits-1 {
+			m.sleep(gap)
+		}
+	}
+	m.sleep(w * 2 / 10)
+	// the window is empty again and there never were `cnt` over-limit events
+	// within one period: served
+	for j := 0; j < int(n); j++ {
+		m.query(a, dns.TypeA)
+	}
+	if i == 0 {
+		r.Sample(map[string]any{"layer": 2, "family": "spread-hits", "config": c.witness(), "ops": m.trace})
+	}
+	m.finish(fmt.Sprintf("L2spread/n%d/c%d/w%s/shape%d/v6=%v", n, cnt, w, i%4, v6))
 }
 
 // ---- family: concurrent queries to one Backoff (race detector + totals)
